@@ -50,12 +50,23 @@ func sampleRead(r *oracle.Report, tag string, s segment.Segment, m *model.Seg, r
 		oracle.CheckPostings(r, tag, s, m, oracle.PostOpts{MaxTerms: 4})
 		oracle.CheckStored(r, tag, s, m, 1)
 		oracle.CheckDocValues(r, []oracle.DVTarget{{Tag: tag, Seg: s, M: m}}, rng, 1024, nil)
+		thesLight(r, tag, s, m, rng)
+		if m.NumDocs > 0 {
+			d := uint64(rng.Int63n(int64(m.NumDocs)))
+			bm, err := s.DocNumbers([]string{m.IDs[d], "zz-absent"})
+			if err != nil || bm == nil || !bm.Contains(uint32(d)) {
+				r.Fail("docnumbers", "%s: DocNumbers(%q) = %v, %v", tag, m.IDs[d], bm, err)
+			}
+		}
+		if VecBuild {
+			checkVectorsLight(r, tag, s, m, rng)
+		}
 		r.Inc("reads_between_operations", 1)
 	})
 }
 
 func c20fixture(c *Ctx, rng *rand.Rand) (*model.Batch, *model.Seg, []byte, bool) {
-	b := model.Gen(rng, "small", model.GenOpts{NoBig: true, Syn: true})
+	b := model.Gen(rng, "small", model.GenOpts{NoBig: true, Syn: true, Vec: VecBuild})
 	forceDV(b, rng)
 	m := model.Build(b)
 	zx.SetChunkMode(1026)
@@ -278,5 +289,46 @@ func c20conc(c *Ctx) {
 				c.Sample(map[string]interface{}{"case": id, "holders": holders, "gomaxprocs": procs, "owner_closes_after": ownerAt})
 			}
 		}()
+	}
+}
+
+// thesLight: one lookup per thesaurus (cold or warm cache), compared with the model.
+func thesLight(r *oracle.Report, tag string, s segment.Segment, m *model.Seg, rng *rand.Rand) {
+	ts, ok := s.(segment.ThesaurusSegment)
+	if !ok {
+		return
+	}
+	for name, th := range m.Thes {
+		t, err := ts.Thesaurus(name)
+		if err != nil || t == nil {
+			r.Fail("thes-err", "%s: Thesaurus(%q): %v", tag, name, err)
+			continue
+		}
+		terms := m.ThesTerms(name)
+		if len(terms) == 0 {
+			continue
+		}
+		term := terms[rng.Intn(len(terms))]
+		l, err := t.SynonymsList([]byte(term), nil, nil)
+		if err != nil || l == nil {
+			r.Fail("thes-list-err", "%s: SynonymsList(%q): %v", tag, term, err)
+			continue
+		}
+		it := l.Iterator(nil)
+		n := 0
+		for {
+			sy, err := it.Next()
+			if err != nil {
+				r.Fail("thes-next-err", "%s: thesaurus %q term %q: %v", tag, name, term, err)
+				break
+			}
+			if sy == nil {
+				break
+			}
+			n++
+		}
+		if n != len(th[term]) {
+			r.Fail("thes-missing", "%s: thesaurus %q term %q: %d pairs, want %d", tag, name, term, n, len(th[term]))
+		}
 	}
 }
